@@ -30,14 +30,17 @@ def oracle(rec):
 def run(rep, tier, seed):
     n = size(tier, 100, 2000)
     hist = {}
-    for name, quant in (("fol-qf", False), ("quant", True)):
-        progs = [streams.gen_fol_program(seed + 23, k, quant=quant, n_ops=(0, 0)) for k in range(n)]
+    for name, quant, par in (("fol-qf", False, True), ("quant", True, True), ("qparent", True, 1.0)):
+        progs = [streams.gen_fol_program(seed + 23, k, quant=quant, n_ops=(0, 0), parents=par)
+                 for k in range(n if par is True else n // 2)]
         for p in progs:
             conn = [x["id"] for x in p["kb"]["nodes"]]
             tail = [("passup",), ("passdown",)]
             for i in conn:
                 tail += [("up", i), ("down", i, None)]
             p["ops"] = [("infer", MAXS)] + tail + [("infer", MAXS)]
+        if name == "qparent":
+            progs = streams.corpus_fol("C06") + progs          # minimised past failures run first
         recs, first = streams.run_fol_stream(rep, name, progs, {"tables", "reported"})
         for r in recs:
             if "crash" in r:
